@@ -335,6 +335,24 @@ Definition own_init (ds : list dgram) : st bsh (nat * bpc) :=
   ({| b_buf := []; b_pos := 0; b_lock := None; b_out := []; b_inq := ds; b_seen := []; b_cw := false; b_werr := false |},
    [(0%nat, BIdle); (1%nat, BIdle)]).
 
+(* ---- the relay's copy-buffer pool (copyBufferPool in copy.go) as far as Bidirectional uses it: a starting copy direction
+        Gets a buffer (a free one, else a new one), a finishing direction Puts the buffer it holds back (the deferred Put).
+        DoublePut = the variant that puts the same buffer back twice on one exit path. ---- *)
+Record bpool := { bp_free : list nat; bp_next : nat; bp_held : list nat }.
+Inductive bpop := BpGet | BpPut (i : nat).
+Definition bpool_step (DoublePut : bool) (p : bpool) (o : bpop) : bpool :=
+  match o with
+  | BpGet => match bp_free p with
+             | i :: more => {| bp_free := more; bp_next := bp_next p; bp_held := i :: bp_held p |}
+             | [] => {| bp_free := []; bp_next := S (bp_next p); bp_held := bp_next p :: bp_held p |}
+             end
+  | BpPut i => if existsb (Nat.eqb i) (bp_held p)
+               then {| bp_free := (if DoublePut then [i; i] else [i]) ++ bp_free p; bp_next := bp_next p;
+                       bp_held := remove Nat.eq_dec i (bp_held p) |}
+               else p
+  end.
+Definition bpool0 : bpool := {| bp_free := []; bp_next := 0; bp_held := [] |}.
+
 (* ---- the ticker variant that flushes only after a QUIET interval (it remembers batchPos of the previous tick and
         skips the flush while the batch is still growing) — kept for a _refuted lemma ---- *)
 Record qst := { q_e : est; q_last : N }.
